@@ -18,7 +18,7 @@ from gtirb_rewriting import Patch, RewritingContext, patch_constraints
 from gtirb_rewriting.assembler import Assembler
 from gtirb_rewriting.assembly import X86Syntax
 
-from .project import Projector, classify, sx_desc, _decoder, base_name
+from .project import Projector, classify, sx_desc, _decoder, base_name, whole_ir_report
 from .render import render
 
 SUFFIX_RE = re.compile(r"_\d+$")
@@ -75,13 +75,24 @@ def patch_text(spec: dict, isa: str) -> str:
     raise NotImplementedError(isa)
 
 
-def make_patch(spec: dict, isa: str, log: Optional[list] = None) -> Patch:
+class InjectedFault(RuntimeError):
+    """Raised by an instrumented patch callback (fault injection for C05)."""
+
+
+def make_patch(spec: dict, isa: str, log: Optional[list] = None,
+               fault: Optional[dict] = None) -> Patch:
     text = patch_text(spec, isa)
 
     @patch_constraints(x86_syntax=X86Syntax.ATT)
     def fn(ctx):
         if log is not None:
             log.append(ctx)
+        if fault is not None:
+            fault["n"] += 1
+            if fault["n"] == fault["at"]:
+                if fault.get("kind") == "asm":
+                    return "this is not assembly ((("
+                raise InjectedFault(f"injected at invocation {fault['n']}")
         return text
 
     return Patch.from_function(fn)
@@ -170,6 +181,10 @@ def run_case(case: dict, sink=None, sequential: bool = False) -> dict:
     exc = ""
     stage = "register"
     expensive = case.get("expensive_assertions", True)
+    fault = None
+    if case.get("fault"):
+        fault = {"n": 0, "at": int(case["fault"]), "kind": case.get("fault_kind", "raise")}
+    orig_cfg = r.ir.cfg
     try:
         ctx = RewritingContext(r.module, r.functions, expensive_assertions=expensive)
         for reg_id, ri in enumerate(order):
@@ -186,7 +201,7 @@ def run_case(case: dict, sink=None, sequential: bool = False) -> dict:
                     rec["patch"] = bytes_patch(pobj)
                 else:
                     rec["patch"] = assemble_standalone(shape, ps)
-                    pobj = make_patch(ps, isa, ctxlog)
+                    pobj = make_patch(ps, isa, ctxlog, fault)
                 if rq["op"] == "ins":
                     ctx.insert_at(b, rq["off"], pobj)
                 else:
@@ -202,9 +217,11 @@ def run_case(case: dict, sink=None, sequential: bool = False) -> dict:
         if os.environ.get("VERIF_DEBUG"):
             traceback.print_exc()
     post = proj.project()
+    whole = whole_ir_report(r.module, orig_cfg)
     return {"id": case["id"], "pre": pre, "reqs": trace_reqs, "post": post,
             "exc": exc, "stage": stage, "nfun": len(r.functions),
-            "isa": isa, "fmt": shape.get("fmt", "elf")}
+            "isa": isa, "fmt": shape.get("fmt", "elf"), "whole": whole,
+            "fault": int(case.get("fault", 0)), "ninv": len(ctxlog)}
 
 
 def main(argv):
